@@ -520,6 +520,8 @@ class Check:
         # evidence under /verif/evidence only describes runs against /repo itself; runs against another
         # tree (VERIF_REPO = a scratch copy with a seeded change or a mutant) write theirs elsewhere
         evdir = os.path.join(VERIF, 'evidence') if REPO == '/repo' else os.path.join(VERIF, 'replays', 'evidence_other_tree')
+        # deepening runs (harness/run_check.py: further seeds when the repository differs from the baseline)
+        evdir = os.environ.get('VERIF_EVIDENCE_DIR') or evdir
         os.makedirs(evdir, exist_ok=True)
         with open(os.path.join(evdir, self.pid + '.json'), 'w') as f:
             json.dump(ev, f, indent=1, default=str)
